@@ -108,10 +108,22 @@ pub fn record(rng: &mut SmallRng, n_events: usize, out: &mut dyn Write) {
     while left > 0 {
         let kind = if rng.gen_bool(0.5) { "chars" } else { "char_indices" };
         let n = rng.gen_range(0..30);
-        let s: String = (0..n).map(|_| {
+        let mut s: String = (0..n).map(|_| {
             let c = if rng.gen_bool(0.5) { edges[rng.gen_range(0..edges.len())] } else { rng.gen_range(0..0x110000) };
             char::from_u32(c).unwrap_or('x')
         }).collect();
+        // one string in four: long ASCII runs (around 8 / 16 / 32 / 64 bytes) with a multi-byte character near an end
+        if rng.gen_range(0..4) == 0 {
+            let run = [7usize, 8, 9, 15, 16, 17, 24, 31, 32, 33, 64][rng.gen_range(0..11)];
+            let ascii: String = (0..run).map(|i| (b'a' + (i % 26) as u8) as char).collect();
+            let wide = char::from_u32(edges[rng.gen_range(2..edges.len())]).unwrap_or('ñ');
+            s = match rng.gen_range(0..4) {
+                0 => format!("{ascii}{wide}"),
+                1 => format!("{wide}{ascii}"),
+                2 => format!("{ascii}{wide}{}", &ascii[..rng.gen_range(0..7)]),
+                _ => format!("{}{wide}{ascii}", &ascii[..rng.gen_range(0..7)]),
+            };
+        }
         let mut it = It::new(kind, &s);
         writeln!(out, "{}", json!({"ev": "init", "kind": kind, "s": js(&s)})).unwrap();
         left -= 1;
@@ -157,7 +169,11 @@ pub fn record_sweep(first_block: u32, n_blocks: u32, out: &mut dyn Write) {
         writeln!(out, "{}", json!({"ev": "block", "base": base, "enc": enc, "dec": dec})).unwrap();
     }
     // boundary values beyond the swept range
-    for n in [0x7FFF_FFFFu32, 0x8000_0000, 0xFFFF_FFFF, 0x0011_0000, 0x0012_0000] {
+    // (every power of two from 2^21, and scalar values with a high byte / high bit added)
+    let mut big: Vec<u32> = vec![0x7FFF_FFFF, 0x8000_0000, 0xFFFF_FFFF, 0x0011_0000, 0x0012_0000, 0x0100_0041, 0xFF10_FFFF, 0x8000_0041,
+                                 0x0101_0000, 0x0020_0000, 0xFFFF_0000, 0x0110_0000, 0x1000_0000 | 0xD7FF];
+    big.extend((21..32).map(|k| 1u32 << k));
+    for n in big {
         writeln!(out, "{}", json!({"ev": "big", "some": chr::from_u32(n).is_some() as u8})).unwrap();
     }
 }
